@@ -1,3 +1,4 @@
+import Driver.Awaitify
 import Driver.Borrow
 import Driver.Tee
 import Driver.CachedProperty
@@ -23,6 +24,7 @@ def dispatch (j : Json) : Except String Json := do
   | "cachedprop" => Drv.CachedProperty.run j
   | "tee" => Drv.Tee.run j
   | "borrow" => Drv.Borrow.run j
+  | "awaitify" => Drv.Awaitify.run j
   | _ => throw s!"unknown machine {m}"
 
 partial def loop (h : IO.FS.Stream) (out : IO.FS.Stream) : IO Unit := do
